@@ -105,7 +105,9 @@ func (rl *TokenBucketRateLimiter) cleanupRoutine() {
 	}
 }
 
-// cleanup removes buckets that haven't been used for more than 1 hour
+// cleanup removes buckets that haven't been used for more than 1 hour and have refilled
+// completely: a returning client gets a fresh, full bucket, so evicting one that is still
+// refilling (slow refill rates) would hand out tokens the client is not entitled to yet
 func (rl *TokenBucketRateLimiter) cleanup() {
 	now := time.Now()
 	cutoff := now.Add(-time.Hour)
@@ -116,7 +118,8 @@ func (rl *TokenBucketRateLimiter) cleanup() {
 		b := value.(*bucket)
 
 		b.mutex.Lock()
-		shouldDelete := b.lastRefill.Before(cutoff)
+		shouldDelete := b.lastRefill.Before(cutoff) &&
+			b.tokens+int(now.Sub(b.lastRefill)/rl.refillRate) >= rl.maxTokens
 		b.mutex.Unlock()
 
 		if shouldDelete {
